@@ -123,6 +123,9 @@ func (eng *Engine) verifyFunctionTagged(fn *ssa.Function, fc *FuncContract, tag 
 	ex.loops = loops
 	for _, l := range loops {
 		ex.loopOf[l.header] = l
+		if os.Getenv("BMVERIF_DEBUG_LOCALS") != "" {
+			fmt.Fprintf(os.Stderr, "loop %d: header block %d (%s) at %v\n", l.ordinal, l.header.Index, l.header.Comment, eng.fset.Position(l.astNode.Pos()))
+		}
 	}
 	ex.run()
 	return vc
@@ -701,8 +704,14 @@ func (ex *exec) constVal(c *ssa.Const) Val {
 }
 
 func (ex *exec) fltConst(s string) string {
+	if s == "0" {
+		return "flt.zero"
+	}
 	n := "fltc_" + sanitize(s)
-	ex.vc.declConst(n, SFlt)
+	if !ex.vc.declared[n] {
+		ex.vc.declared[n] = true
+		ex.vc.decls = append(ex.vc.decls, "(declare-const "+n+" Flt)", "(assert (not (= "+n+" flt.zero)))")
+	}
 	return n
 }
 
